@@ -340,9 +340,9 @@ def r12i(F):
 				continue
 			n_cells += 1
 			elsewhere = [m2 for m2 in rt if m2 != n and any(fw in feeds.get(v, set()) for v in rt[m2])]
-			if fw not in G and elsewhere and not (G & wfields):
-				out.append(Result('12.i', False, 'wrong-source:%s:%s' % (p.name, n), '%s writes field `%s` under TLV type %s, but %s restores type %s into %s; `%s` itself is restored from type %s and nothing writes %s: %s is replaced by a copy of `%s` on reload' % (
-					tlv.desc(w), fw, n, tlv.desc(r), n, sorted(G), fw, elsewhere, sorted(G), sorted(G), fw), 2, where='%s:%d' % (w['rel'], w['line'])))
+			if fw not in G and elsewhere:
+				out.append(Result('12.i', False, 'wrong-source:%s:%s' % (p.name, n), '%s writes field `%s` under TLV type %s, but %s restores type %s into %s, while `%s` itself is restored from type %s: after a reload %s holds the value of `%s`' % (
+					tlv.desc(w), fw, n, tlv.desc(r), n, sorted(G), fw, elsewhere, sorted(G), fw), 2, where='%s:%d' % (w['rel'], w['line'])))
 	if n_cells < 150:
 		out.append(Result('12.i', False, 'floor:restored-field-cells', 'only %d (TLV type, written field, restored field) cells could be related (expected >= 150)' % n_cells, n_cells))
 	if not out:
@@ -350,3 +350,11 @@ def r12i(F):
 	return out
 
 RULES.append(('12.i', 'hand-written TLV tables: each type is restored into the field it was written from (no value duplicated over a sibling field)', r12i))
+
+
+def r12j(F):
+	"""positional (pre-TLV) section of the ChannelManager: writer and reader pair slot by slot; a slot restored into a field is never a constant"""
+	import positional
+	return positional.check_constant_slots(F, '12.j', W(L + 'ln::channelmanager::ChannelManager'), '<lightning::ln::channelmanager::ChannelManagerData as lightning::util::ser::ReadableArgs>::read', 'ChannelManager', 10)
+
+RULES.append(('12.j', 'ChannelManager positional section: slots pair by type; restored fields are not written as constants', r12j))
